@@ -590,7 +590,7 @@ def cfun_lines(ctx):
     rng = ctx.rng
     lines = []
     for c in list(range(-2, 130)) + [255, 256, 1000]:
-        for f in ("htp_is_lws", "htp_is_text", "htp_is_folding_char"):
+        for f in ("htp_is_lws", "htp_is_text", "htp_is_folding_char", "htp_is_space", "htp_is_separator", "htp_is_token"):
             lines.append("cfun %s %d" % (f, c))
     alpha = [0x61, 0x41, 0x20, 0x09, 0x0d, 0x0a, 0x00, 0x7a]
     n = 4 if ctx.tier == "quick" else 5
@@ -598,10 +598,15 @@ def cfun_lines(ctx):
         h = hx(list(s1))
         for f in ("htp_is_line_empty", "htp_is_line_whitespace", "htp_chomp"):
             lines.append("cfun %s %s" % (f, h))
+    for s1 in strings_upto([0x48, 0x74, 0x54, 0x50, 0x70, 0x20, 0x00, 0x0a], n + 1):
+        lines.append("cfun htp_treat_response_line_as_body %s" % hx(list(s1)))
+    for s1 in strings_upto([0x2f, 0x2e, 0x61], 7 if ctx.tier == "quick" else 9):
+        lines.append("cfun htp_normalize_uri_path_inplace %s" % hx(list(s1)))
     al2 = [0x61, 0x41, 0x62, 0x00]
     for s1 in strings_upto(al2, 3):
         for s2 in strings_upto(al2, 3):
-            for f in ("bstr_util_cmp_mem", "bstr_util_cmp_mem_nocase", "bstr_util_mem_index_of_mem"):
+            for f in ("bstr_util_cmp_mem", "bstr_util_cmp_mem_nocase", "bstr_util_mem_index_of_mem", "bstr_util_cmp_mem_nocasenorzero",
+                      "bstr_util_mem_index_of_mem_nocase", "bstr_util_mem_index_of_mem_nocasenorzero"):
                 lines.append("cfun %s %s %s" % (f, hx(list(s1)), hx(list(s2))))
     for l in num_lines(ctx):
         t = l.split(" ")
@@ -609,10 +614,13 @@ def cfun_lines(ctx):
             lines.append("cfun bstr_util_mem_to_pint %s %s" % (t[2], t[3]))
         elif t[1] == "ppiw":
             lines.append("cfun htp_parse_positive_integer_whitespace %s %s" % (t[2], t[3]))
+        elif t[1] == "chunked":
+            lines.append("cfun htp_parse_chunked_length %s" % t[2])
     for _ in range(4000 if ctx.tier == "quick" else 60000):
         a = [rng.choice(b"aAbB \t\r\n\x00z09") for _ in range(rng.randint(0, 12))]
         b = [rng.choice(b"aAbB \t\r\n\x00z09") for _ in range(rng.randint(0, 4))]
-        f = rng.choice(("bstr_util_cmp_mem", "bstr_util_cmp_mem_nocase", "bstr_util_mem_index_of_mem"))
+        f = rng.choice(("bstr_util_cmp_mem", "bstr_util_cmp_mem_nocase", "bstr_util_mem_index_of_mem", "bstr_util_cmp_mem_nocasenorzero",
+                        "bstr_util_mem_index_of_mem_nocase", "bstr_util_mem_index_of_mem_nocasenorzero"))
         lines.append("cfun %s %s %s" % (f, hx(a), hx(b)))
         lines.append("cfun %s %s" % (rng.choice(("htp_is_line_empty", "htp_is_line_whitespace", "htp_chomp")), hx(a)))
     return lines
